@@ -177,6 +177,13 @@ theorem tag_saved_version (ds w : List Char) (hd : Digits ds) (hw : parseBranchS
       .ok (some ⟨M, m, digitsVal ds 0, digitsVal ds 0⟩) :=
   tagBN_saved hd hw M m
 
+/-- the same tag on a commit without a version file is a build all the same, with unknown major.minor (the code's `'?'`,
+which sorts after every number) -/
+theorem tag_unknown_version (ds w : List Char) (hd : Digits ds) (hw : parseBranchStr w = none) :
+    tagBN none (Gen.Ghist.tagPre ++ ds ++ Gen.Ghist.tagSep ++ w ++ Gen.Ghist.tagSuf) =
+      .ok (some ⟨unknownNum, unknownNum, digitsVal ds 0, digitsVal ds 0⟩) :=
+  tagBN_unknown hd hw
+
 /-- tags that do not start with `build_` or do not end with `_success` do not make a commit a build -/
 theorem tag_ignored (saved : Option (Nat × Nat)) (s : List Char)
     (h : (¬ ∃ r, s = Gen.Ghist.tagPre ++ r) ∨ (¬ ∃ r, s = r ++ Gen.Ghist.tagSuf)) : tagBN saved s = .ok none :=
